@@ -712,6 +712,8 @@ static ProcResult RunProcess(Kernel* k, const ProcSpec& spec, SpawnHandler* h, s
   // every invocation starts in a new tick (rule 3)
   k->NewTick();
   p->start_ns = k->now;
+  for (auto& a : k->start_actors) k->AddActor(a.at_ns, a.fn);
+  k->start_actors.clear();
   uint32_t order = k->tape ? k->tape->Choice(spec.faults.stream, 2) : 0;
   ArenaReset(order == 1);
   if (reset_globals) ResetNinjaGlobals();
